@@ -125,6 +125,17 @@ pub fn run(rep: &'static Report) {
             wss.push((ws, d));
         }
     }
+    // fixtures two directory levels below the root, the level in between holding nothing of its own
+    // (its only child mixes used and unused fixtures): the filtered listings must keep the subtree
+    for outer in crate::layouts::CONF_ALL {
+        for inner in crate::layouts::CONF_ALL {
+            for own in [0usize, 1] {
+                let l = Layout { levels: vec![outer, crate::layouts::Conf::Absent, inner], own_defs: own, distractors: [false; 5], rich: false };
+                let d = json!({"nested": l});
+                wss.push((l.to_ws(), d));
+            }
+        }
+    }
     for ch in crate::checks::c02::Chain::enumerate(2, 3).into_iter().step_by(if thorough { 1 } else { 9 }) {
         let d = json!(ch);
         wss.push((ch.to_ws(), d));
